@@ -11,9 +11,12 @@ export VERIF_EVIDENCE_DIR=/verif/target/campaign-evidence-$$; mkdir -p $VERIF_EV
 SEEDS=${@:-1 7}
 OUT=/verif/validation/determinism.txt
 mkdir -p /verif/validation
+[ -n "$CHECKS" ] && OUT=/verif/validation/determinism_round8.txt
 echo "# determinism campaign $(date -u +%FT%TZ), harness $(git -C /verif rev-parse --short HEAD), repo $(git -C /repo rev-parse --short HEAD): check seed jobs=16 vs jobs=5 -> event_log_digest / evaluations" > $OUT
 rc=0
-for id in $(python3 -c "import json; print(' '.join(c['property_id'] for c in json.load(open('MANIFEST.json'))['checks']))"); do
+# CHECKS="C03 C16" restricts the campaign to those checks (results are then appended, not rewritten)
+IDS=${CHECKS:-$(python3 -c "import json; print(' '.join(c['property_id'] for c in json.load(open('MANIFEST.json'))['checks']))")}
+for id in $IDS; do
   for seed in $SEEDS; do
     d=()
     for jobs in 16 5; do
